@@ -191,7 +191,7 @@ def run(ctx: Ctx) -> int:
             nvals += stats.get("n", 0)
     rep.notes["values_compared_with_closed_form"] = nvals
     rep.notes["worst_error_over_tolerance"] = round(worst, 4)
-    rep.notes["fragile_cases_excluded"] = 0
+    rep.notes["fragile_rows_judged_at_integrator_atol(|x|<1e-2)"] = sum(st.get("fragile", 0) for _, st in outs)
     for h in hs[:: max(1, len(hs) // 3)][:3]:
         rep.sample({"calls": [s["op"] for s in h], "refused": [s["raised"] for s in h],
                     "predicted_index_ticks": [[q["o"] if q["b"] == 0 else f"tau{q['b']}+{q['o']}" for q in g["times"]]
